@@ -110,6 +110,8 @@ class Interp:
             facts.append(t.dt.n(e) >= 0)
         elif isinstance(t, (TMap, TSet)):
             facts.append(t.dt.card(e) >= 0)
+            k = z3.Const("wf_k", t.k.sort())
+            facts.append((t.dt.card(e) == 0) == z3.ForAll([k], z3.Not(z3.Select(t.dt.dom(e), k))))
         elif isinstance(t, TTuple):
             for i, et in enumerate(t.elems):
                 if isinstance(et, (TList, TMap, TSet)):
@@ -405,6 +407,11 @@ class Interp:
             return self._lex(a.items, b.items, strict)
         if isinstance(a, VUn) and isinstance(b, VUn) and a.t == b.t:
             f = self.ver.order_fn(a.t)
+            if not getattr(self.path, "_ord_ax_" + a.t.nm, False):
+                # comparable opaque keys: `le_<sort>` is a total order (reflexive, total, antisymmetric, transitive)
+                setattr(self.path, "_ord_ax_" + a.t.nm, True)
+                for ax in self.ver.order_axioms(a.t):
+                    self.path.assume(ax)
             return f(a.e, b.e) if not strict else z3.And(f(a.e, b.e), a.e != b.e)
         if self.spec:
             raise Unsupported("ordering of %s and %s" % (type(a).__name__, type(b).__name__))
